@@ -306,6 +306,7 @@ def r_func(i: int, r: Dict[str, Any]) -> str:
         "vararg": "*text: str",
         "untyped": "text, items",
         "ourtype": "text: Short_text, items: List[Something]",
+        "dup_arg": "text: str, items: List[str], text: str",
     }[r["args"]]
     deco = {
         "verification": "@verification\n",
@@ -458,6 +459,8 @@ def r_class(i: int, r: Dict[str, Any]) -> str:
         "self_ref": '"%s"' % name,
         "enum": "Color",
         "cprim": "Short_text",
+        "str_subscript": '"List[int]"',
+        "str_empty": '""',
     }[r["ann"]]
     optional = r["ann"].startswith("optional")
     body_kind = r["body"]
@@ -491,6 +494,8 @@ def r_class(i: int, r: Dict[str, Any]) -> str:
         "method_lambda": "value: %s\n\ndo_something = lambda self: 1" % ann,
         "property_deco": "value: %s\n\n@property\ndef other(self) -> int:\n    return 1" % ann,
         "bad_docstring": '"""\nRepresent :class:`Unknown_class_%d` and ``unbalanced.\n\n:ivar nothing: nothing\n"""\n\nvalue: %s' % (i, ann),
+        "method_dup": "value: %s\n\n@implementation_specific\ndef do_something(self) -> None:\n    raise NotImplementedError()\n\n@implementation_specific\ndef do_something(self) -> None:\n    raise NotImplementedError()" % ann,
+        "method_verification": "value: %s\n\n@verification\ndef check_it(self) -> bool:\n    return True" % ann,
     }[body_kind]
     if body_kind in ("pass", "ellipsis", "docstring_only", "prop_no_annotation", "prop_tuple_target", "prop_attr_target", "prop_unicode", "stmt_if"):
         has_prop = False
@@ -523,6 +528,8 @@ def r_class(i: int, r: Dict[str, Any]) -> str:
         "async": "async def __init__(self, value: %s) -> None:\n    self.value = value" % argann,
         "lambda_default": "def __init__(self, value: %s = (lambda: 1)()) -> None:\n    self.value = value" % ann,
         "posonly": "def __init__(self, value: %s, /) -> None:\n    self.value = value" % argann,
+        "dup_arg": "def __init__(self, value: %s, value: %s) -> None:\n    self.value = value" % (ann, ann),
+        "impl_specific": "@implementation_specific\ndef __init__(self, value: %s) -> None:\n    pass" % argann,
     }[ctor_kind]
     if not has_prop and ctor_kind == "auto":
         ctor = ""
@@ -848,6 +855,21 @@ def matches_features(text: str) -> bool:
 
 class Surrogate(Enum):
     A = "\\ud800"
+''',
+    "cs_name_collision": '''
+
+class Abc_def(DBC):
+    value: int
+
+    def __init__(self, value: int) -> None:
+        self.value = value
+
+
+class Abc_Def(DBC):
+    value: int
+
+    def __init__(self, value: int) -> None:
+        self.value = value
 ''',
     "name_collision": '''
 
